@@ -166,7 +166,9 @@ def run(ctx):
     # ---- C16.4 the rejecting arms close the connection with 400 (traced from the head reader into next())
     PRS.trace_and_judge(ctx, "C16.4", "C16.4", only=lambda label: label == "malformed header line" or (label.endswith("reported by new_request") and "xpect" not in label))
 
-    # ---- C16.5 framing header lookup
+    # ---- C16.5 framing header lookup (and: new_request gets every header line the client sent, so none of them escapes the validation)
+    import rules_C02
+    rules_C02.header_loop_rules(ctx, "C16.5")
     seen = {a[0][1] for r in rows for a in r["atoms"] if a[0][0] == "present"}
     for name in ("Transfer-Encoding", "Content-Length"):
         ctx.ob("C16.5", "%s|lookup-%s" % (nr0.id, name), "%s is looked up by name, case-insensitively" % name, name in seen, where)
